@@ -112,8 +112,12 @@ func runC14(r *Report) {
 	pieceSizeProducts64(r, "R8")
 	// the store's side of "lands where it belongs": AddData's per-block copy (C01.R8 re-evaluated) — the web-seed writer
 	// is the only caller that hands it several blocks at once
+	c14ReadersReport(r, "R7")
 	if c := newPieceCtx(r, "R9"); c.ok {
 		c.r8("R9")
+		// … after the re-check made in the same lock hold (C01.R4 shared): a buffer allocated outside the lock can
+		// replace the one another store has just filled
+		c.r4("R9")
 	}
 	// fileChunks assumes the file table is in offset order and never changes (C20.R1 re-evaluated)
 	c20FilesImmutable(r, "R10")
@@ -862,4 +866,88 @@ func (pp *posProver) positive(v ssa.Value, b *ssa.BasicBlock, gs []Guard, depth 
 		return true, ""
 	}
 	return false, exprStr(v)
+}
+
+// c14ReadersReport: an io.Reader of the module (the zero-filled reader that stands in for padding files, the RC4
+// connection, the torrent Reader) reports as read only bytes it has put into the caller's buffer. Where it fills the
+// buffer with copy, the number copied is min(len(dst), len(src)): either that number is what it returns, or the
+// source is known to be at least as long as the destination. copy(buf[:n], zeroChunk[:]) with a 16 KiB source clears
+// 16 KiB of a 32 KiB buffer and "reads" 32 KiB: the writer stores what the previous file left in the second half.
+func c14ReadersReport(r *Report, rule string) {
+	p := r.P
+	env := &IntEnv{}
+	n := 0
+	for _, f := range p.SrcFuncs() {
+		if !strings.HasPrefix(funcPkgPath(f), modPath) || f.Name() != "Read" || f.Signature.Recv() == nil || len(f.Params) != 2 || !isByteSlice(f.Params[1].Type()) || f.Signature.Results().Len() != 2 {
+			continue
+		}
+		buf := f.Params[1]
+		isBuf := func(v ssa.Value) bool {
+			for i := 0; i < 4; i++ {
+				if v == ssa.Value(buf) {
+					return true
+				}
+				sl, ok := v.(*ssa.Slice)
+				if !ok {
+					return false
+				}
+				v = sl.X
+			}
+			return false
+		}
+		allInstrs(f, func(in ssa.Instruction) {
+			c, ok := in.(*ssa.Call)
+			if !ok {
+				return
+			}
+			bi, isB := c.Call.Value.(*ssa.Builtin)
+			if !isB || bi.Name() != "copy" || !isBuf(c.Call.Args[0]) {
+				return
+			}
+			n++
+			r.Fn(f)
+			good := false
+			// the count is used
+			if refs := c.Referrers(); refs != nil {
+				for _, ref := range *refs {
+					if _, isDbg := ref.(*ssa.DebugRef); !isDbg {
+						good = true
+					}
+				}
+			}
+			if !good {
+				// the source is long enough: a constant length >= the upper bound of the destination's length
+				src := c.Call.Args[1]
+				srcLen := int64(-1)
+				if sl, isSl := src.(*ssa.Slice); isSl && sl.Low == nil && sl.High == nil {
+					if at, isArr := derefType(sl.X.Type()).Underlying().(*types.Array); isArr {
+						srcLen = at.Len()
+					}
+				}
+				if s, isStr := constString(src); isStr {
+					srcLen = int64(len(s))
+				}
+				dst := c.Call.Args[0]
+				dstHi := int64(posInf)
+				if sl, isSl := dst.(*ssa.Slice); isSl && sl.High != nil {
+					hi := env.At(sl.High, c.Block()).Hi
+					lo := int64(0)
+					if sl.Low != nil {
+						lo = env.At(sl.Low, c.Block()).Lo
+					}
+					if hi != posInf {
+						dstHi = hi - lo
+					}
+				}
+				if srcLen < 0 {
+					good = true // a source of the same making as the destination: not judged here
+				} else {
+					good = dstHi <= srcLen
+				}
+			}
+			r.Check(good, rule, fmt.Sprintf("%s/copy-count-is-what-is-reported", fname(f)), c.Pos(), "the bytes copied into the caller's buffer are counted, or the source cannot be shorter than the destination",
+				fname(f)+" fills the caller's buffer with copy from a fixed-size source, ignores how many bytes were copied, and reports a count of its own: when the buffer is longer than the source the rest keeps what was there before and is reported as read (a padding file is stored with the stale bytes of the previous file in it; the piece fails its hash every time it is fetched)")
+		})
+	}
+	r.Sentinel(rule+".reader-copies", n, 0)
 }
